@@ -153,10 +153,21 @@ def write_c_table(path: str, types: list, cfg: dict) -> None:
         cases = []
         if isinstance(inner, pydsdl.UnionType):
             cases.append("o->_tag_ = (uint8_t) (%s_UNION_OPTION_COUNT_ + (value %% 100u));" % name)
+            for k, f in enumerate(inner.fields):
+                if isinstance(f.data_type, pydsdl.VariableLengthArrayType):
+                    # select the array alternative, then give it a count above its capacity
+                    cases.append("o->_tag_ = %dU; o->%s.count = (size_t) %dU + 1U + (value %% 1000u);" % (k, lc.filter_id(lang, f.name), f.data_type.capacity))
         else:
             for f in inner.fields_except_padding:
                 if isinstance(f.data_type, pydsdl.VariableLengthArrayType):
                     cases.append("o->%s.count = (size_t) %dU + 1U + (value %% 1000u);" % (lc.filter_id(lang, f.name), f.data_type.capacity))
+                sub = _inner(f.data_type) if isinstance(f.data_type, pydsdl.CompositeType) else None
+                if isinstance(sub, pydsdl.StructureType):
+                    for g in sub.fields_except_padding:
+                        if isinstance(g.data_type, pydsdl.VariableLengthArrayType):
+                            cases.append("o->%s.%s.count = (size_t) %dU + 1U + (value %% 1000u);" % (lc.filter_id(lang, f.name), lc.filter_id(lang, g.name), g.data_type.capacity))
+                elif isinstance(sub, pydsdl.UnionType):
+                    cases.append("o->%s._tag_ = (uint8_t) (200u + (value %% 50u));" % lc.filter_id(lang, f.name))
         lines.append("static int ser_%d(const void* o, uint8_t* b, size_t* s) { return %s_serialize_((const %s*) o, b, s); }" % (i, name, name))
         lines.append("static int des_%d(void* o, const uint8_t* b, size_t* s) { return %s_deserialize_((%s*) o, b, s); }" % (i, name, name))
         lines.append("static void init_%d(void* o) { %s_initialize_((%s*) o); }" % (i, name, name))
@@ -192,10 +203,19 @@ def write_cpp_table(inc_path: str, tbl_path: str, types: list, cfg: dict) -> Non
         name = lcpp.filter_full_reference_name(lang, t)
         inner = _inner(t)
         cases = []
-        if not isinstance(inner, pydsdl.UnionType):
+        if isinstance(inner, pydsdl.UnionType):
+            for f in inner.fields:
+                if isinstance(f.data_type, pydsdl.VariableLengthArrayType):
+                    cases.append("o->set_%s().resize(%dU + 1U + (value %% 3u));" % (lcpp.filter_id(lang, f.name), f.data_type.capacity))
+        else:
             for f in inner.fields_except_padding:
                 if isinstance(f.data_type, pydsdl.VariableLengthArrayType):
                     cases.append("o->%s.resize(%dU + 1U + (value %% 3u));" % (lcpp.filter_id(lang, f.name), f.data_type.capacity))
+                sub = _inner(f.data_type) if isinstance(f.data_type, pydsdl.CompositeType) else None
+                if isinstance(sub, pydsdl.StructureType):
+                    for g in sub.fields_except_padding:
+                        if isinstance(g.data_type, pydsdl.VariableLengthArrayType):
+                            cases.append("o->%s.%s.resize(%dU + 1U + (value %% 3u));" % (lcpp.filter_id(lang, f.name), lcpp.filter_id(lang, g.name), g.data_type.capacity))
         lines.append("static void corrupt_%d(void* p, unsigned which, unsigned value) { auto* o = static_cast<%s*>(p); (void) o; (void) value; switch (which %% %du) {" % (i, name, max(len(cases), 1)))
         for k, c in enumerate(cases):
             lines.append("    case %d: %s break;" % (k, c))
@@ -287,7 +307,7 @@ def make_buffer(r: Rng, t: typing.Any, counters: dict) -> typing.Tuple[bytes, st
 CAP_SPECIAL = [0xFFFFFFFF, 0xFFFFFFFE, 0xFFFFFFFD, 0, 1]
 
 
-def make_ops(r: Rng, types: list, n: int, is_c: bool, counters: dict, full_cap_only: bool = False) -> typing.List[list]:
+def make_ops(r: Rng, types: list, n: int, is_c: bool, counters: dict, full_cap_only: bool = False, allow_null: bool = True) -> typing.List[list]:
     ops = []  # type: typing.List[list]
     nt = len(types)
     i = 0
@@ -302,7 +322,9 @@ def make_ops(r: Rng, types: list, n: int, is_c: bool, counters: dict, full_cap_o
         def des() -> list:
             buf, fk = make_buffer(ro.sub("buf", len(ops)), t, counters)
             counters["buf_" + fk] = counters.get("buf_" + fk, 0) + 1
-            return [2, ti, sl, ro.below(2), buf.hex()]
+            # (the C++ support library built with assertions asserts a non-null data pointer even for an empty span:
+            # a NULL buffer is then API misuse by its own documentation, so it is not given to that build)
+            return [2, ti, sl, ro.below(2) if allow_null else 0, buf.hex()]
 
         def ser() -> list:
             cap = ro.weighted([(0xFFFFFFFF, 4), (0xFFFFFFFE, 1), (0xFFFFFFFD, 2), (0, 1), (1, 1), (ro.below(max(t.extent // 8, 1) + 2), 4)])
@@ -447,7 +469,7 @@ def run_case(case: dict, ctx: dict) -> dict:
     else:
         r = Rng(*case["ops_seed"])
         n = case.get("n_ops") or (1500 if tier == "quick" else 12000)
-        ops = make_ops(r, types, n, is_c, counters["buffers"], full_cap_only=bool(cfg.get("override_varlen")))
+        ops = make_ops(r, types, n, is_c, counters["buffers"], full_cap_only=bool(cfg.get("override_varlen")), allow_null=not (cfg.get("asserts") and not is_c))
     exec_case["ops"] = ops
     script = os.path.join(work, "script.bin")
     write_script(script, ops)
